@@ -142,9 +142,19 @@ def writer_key_table(facts, writer, key_enum):
     return rows, lits
 
 
+SECTION_HEADER = {'general': 'General', 'editor': 'Editor', 'metadata': 'Metadata', 'difficulty': 'Difficulty'}
+
+
+def writer_of(facts, sec, default):
+    import fr
+    ws = fr.section_writers(facts).get(SECTION_HEADER.get(sec, sec), [])
+    return ws[0] if len(ws) == 1 else default
+
+
 def run(facts, out):
     n_keys = 0
     for sec, (dec_ty, key_enum, writer) in SECTIONS.items():
+        writer = writer_of(facts, sec, writer)
         adt = facts.adts.get(key_enum)
         out.anchor('KT', 'key enum ' + key_enum, adt is not None)
         if adt is None:
@@ -348,7 +358,7 @@ def check_enum_numbers(facts, out):
 
 
 def check_colors(facts, out):
-    writer = 'encode::<impl beatmap::Beatmap>::encode_colors'
+    writer = writer_of(facts, 'Colours', 'encode::<impl beatmap::Beatmap>::encode_colors')
     hfn = facts.hir.get(writer)
     fs = facts.body('<section::colors::decode::ColorsKey as std::str::FromStr>::from_str')
     out.anchor('KT', 'colour writer and ColorsKey::from_str', hfn is not None and fs is not None)
@@ -399,7 +409,7 @@ def check_colors(facts, out):
 
 
 def check_events(facts, out):
-    writer = 'encode::<impl beatmap::Beatmap>::encode_events'
+    writer = writer_of(facts, 'Events', 'encode::<impl beatmap::Beatmap>::encode_events')
     hfn = facts.hir.get(writer)
     dtab, ppath = decoder_event_table(facts)
     out.anchor('KT', 'event writer / decoder event arms', hfn is not None and bool(dtab), str(sorted(dtab or {})))
